@@ -128,3 +128,59 @@ Proof.
   apply andb_true_iff in S as [S1 S2]. split; [exact S1|].
   destruct (hex2rgb h) as [[[r' g'] b']|]; [|discriminate]. exists r', g', b'. split; [reflexivity|]. lia.
 Qed.
+
+(* ---- rgb2hex on any in-range tuple / any table entry, and hexa_color on every input form *)
+Lemma rgb2hex_sound r g b h : rgb2hex r g b = Some h ->
+  color_lexical h = true /\ hex2rgb h = Some (Z.to_N r, Z.to_N g, Z.to_N b) /\
+  ((0 <=? r) && (r <=? 255) && (0 <=? g) && (g <=? 255) && (0 <=? b) && (b <=? 255))%Z = true.
+Proof.
+  intros H. destruct (((0 <=? r) && (r <=? 255) && (0 <=? g) && (g <=? 255) && (0 <=? b) && (b <=? 255))%Z) eqn:E.
+  - destruct (rgb_roundtrip_lemma r g b) as (e & He & H2 & H3); try lia. rewrite H in He. injection He as <-. auto.
+  - unfold rgb2hex in H. rewrite E in H. discriminate.
+Qed.
+(* names: whatever the table says (no sweep needed: holds for any table) *)
+Theorem rgb2hex_name_lemma tbl name h : rgb2hex_name tbl name = Some h ->
+  exists r g b, lookup (map ascii_lower name) tbl = Some (r, g, b) /\ color_lexical h = true /\ hex2rgb h = Some (Z.to_N r, Z.to_N g, Z.to_N b).
+Proof.
+  unfold rgb2hex_name. destruct (lookup (map ascii_lower name) tbl) as [[[r g] b]|]; [|discriminate].
+  intros H. apply rgb2hex_sound in H as (H1 & H2 & _). exists r, g, b. auto.
+Qed.
+(* a '#' string is handed back unchanged: the claim holds when that string is itself #rrggbb *)
+Definition hexa_ok (i : hinput) : bool :=
+  match i with
+  | HStr s => match strip s with x :: r => if (x =? c_hash)%N then color_lexical (x :: r) else true | [] => true end
+  | _ => true
+  end.
+Theorem hexa_color_lemma tbl i h : hexa_color tbl i = Some (Some h) -> hexa_ok i = true ->
+  color_lexical h = true /\ hexa_denotes tbl i = hex2rgb h /\ exists rgb, hex2rgb h = Some rgb.
+Proof.
+  destruct i as [|ch|s|]; try discriminate.
+  - (* tuple *)
+    destruct ch as [|r [|g [|b [|x ch]]]]; try discriminate. cbn [hexa_color hexa_denotes].
+    destruct (rgb2hex r g b) as [h'|] eqn:E; [|discriminate]. intros [= <-] _.
+    apply rgb2hex_sound in E as (H1 & H2 & H3). rewrite H3, H2. eauto.
+  - (* string *)
+    unfold hexa_color, hexa_denotes, hexa_ok. destruct (strip s) as [|x r] eqn:Es.
+    + intros [= <-] _. repeat split; try reflexivity. eexists; reflexivity.
+    + destruct (x =? c_hash)%N.
+      * intros [= <-] Hl. destruct (hex2rgb_complete_lemma _ Hl) as [rgb Hr]. rewrite Hr. eauto.
+      * destruct (rgb2hex_name tbl (x :: r)) as [h'|] eqn:E; [|discriminate]. intros [= <-] _.
+        unfold rgb2hex_name in E. destruct (lookup (map ascii_lower (x :: r)) tbl) as [[[r' g] b]|]; [|discriminate].
+        apply rgb2hex_sound in E as (H1 & H2 & H3). rewrite H3, H2. eauto.
+Qed.
+(* "#f00" (pinned by the test-suite) comes back as it is: not an ODF colour *)
+Theorem hexa_color_passthrough : hexa_color css3_colormap (HStr [35;102;48;48]%N) = Some (Some [35;102;48;48]%N) /\ color_lexical [35;102;48;48]%N = false.
+Proof. split; reflexivity. Qed.
+
+(* ---- Boolean.encode on any argument *)
+Theorem bool_encode_any_lemma i t : bool_encode_any i = Some t ->
+  bool_lexical t = true /\ exists b, bool_decode t = Some b /\ t = bool_encode b /\
+    match i with BBool b' => b' = b | BStr s => lower_str s = bool_encode b | BOther => False end.
+Proof.
+  destruct i as [b|s|]; cbn [bool_encode_any]; [ | |discriminate].
+  - intros [= <-]. split; [destruct b; reflexivity|]. exists b. destruct b; repeat split; reflexivity.
+  - destruct (str_eqb (lower_str s) s_true) eqn:E1.
+    + intros [= <-]. split; [reflexivity|]. exists true. repeat split; try reflexivity. now apply str_eqb_eq in E1.
+    + destruct (str_eqb (lower_str s) s_false) eqn:E2; [|discriminate].
+      intros [= <-]. split; [reflexivity|]. exists false. repeat split; try reflexivity. now apply str_eqb_eq in E2.
+Qed.
